@@ -275,7 +275,9 @@ def main():
     # 2. proofs
     coqchk_axioms = None
     if not a.skip_coq_build:
-        rc, out = build_coq(clean=(tier == "thorough"))
+        # thorough: clean rebuild of every proof (VERIF_REUSE_BUILD=1 keeps the existing .vo files,
+        # for running the thorough tier of all properties in a row after one clean build)
+        rc, out = build_coq(clean=(tier == "thorough" and not os.environ.get("VERIF_REUSE_BUILD")))
         if rc != 0 or "Error" in out:
             broken.append(("coq-build", out[-3000:]))
         else:
